@@ -77,6 +77,8 @@ pub struct Target {
     /// C16: log2 of the number of searches made with one long-lived finder in
     /// the rare long-history episodes (0 = none)
     pub long_history_log2: u32,
+    /// the multi-GiB episodes (family 99 of C07, C08, C14) are generated
+    pub huge: bool,
 }
 
 struct B {
@@ -1079,7 +1081,7 @@ pub fn generate(profile: Profile, verif_seed: u64, index: u64, tgt: Target) -> F
                 b.scn_byte_iter(t, false, false, mh);
             }
         }
-        Profile::C07 if index == 99 && !tgt.scale_small => {
+        Profile::C07 if index == 99 && !tgt.scale_small && tgt.huge => {
             // one episode per run: counts that only fit in more than 32 bits
             let len = (1u64 << 32) + 4096 + b.rng.below(4096);
             for be in [Backend::Top, Backend::Avx2, Backend::Sse2] {
@@ -1115,7 +1117,7 @@ pub fn generate(profile: Profile, verif_seed: u64, index: u64, tgt: Target) -> F
                 b.push(0, Op::Byte { be, f: ByteFn::Count, arity: 1, n, hay, raw });
             }
         }
-        Profile::C08 | Profile::C14 if index == 99 && !tgt.scale_small => {
+        Profile::C08 | Profile::C14 if index == 99 && !tgt.scale_small && tgt.huge => {
             // one episode per run: a search that skips more than 4 GiB
             let mut needle = vec![b'e'; 44];
             needle[0] = b'z';
